@@ -26,7 +26,7 @@ structure CFrame (w w' : World α) (c : Nat) : Prop where
   hdr_other : ∀ d, d ≠ c → w'.hdr d = w.hdr d
   hdr_N     : (w'.hdr c).N = (w.hdr c).N
   hdr_inl   : (w'.hdr c).inl = (w.hdr c).inl
-  mem_other : ∀ b, b ≠ (w.hdr c).inl → b ≠ (w.hdr c).data → b < w.next → w'.mem b = w.mem b
+  mem_other : ∀ b, b ≠ (w.hdr c).inl → b < w.next → w'.mem b = w.mem b
   owner_old : ∀ b, b < w.next → w'.owner b = w.owner b
   ub        : w'.ub = w.ub
   ntmp      : w'.ntmp = w.ntmp
@@ -44,8 +44,8 @@ theorem ctorFill_sat (cfg : Cfg) (c a : Nat) (checked : Bool) (srcs : List (Src 
       (fun _ w' => VecOK cfg w' c ∧ Ledger w' ∧ Holds w' c (srcs.map (srcVal w)) ∧ (w'.hdr c).alloc = a ∧
           (w'.live = if (w.hdr c).N < srcs.length then w.next :: w.live else w.live) ∧
           (w'.hdr c).N = (w.hdr c).N ∧ (w'.hdr c).cap = (if (w.hdr c).N < srcs.length then srcs.length else (w.hdr c).N) ∧
-          (w'.hdr c).data = (if (w.hdr c).N < srcs.length then w.next else (w.hdr c).inl))
-      (fun e w' => Unborn w' c ∧ Ledger w' ∧ w'.live = w.live ∧ (e = .length → cfg.maxSize < srcs.length ∧ checked = true)) := by
+          (w'.hdr c).data = (if (w.hdr c).N < srcs.length then w.next else (w.hdr c).inl) ∧ CFrame w w' c)
+      (fun e w' => Unborn w' c ∧ Ledger w' ∧ w'.live = w.live ∧ (e = .length → cfg.maxSize < srcs.length ∧ checked = true) ∧ CFrame w w' c) := by
   unfold ctorFill
   have hsa : SvModel.setAlloc c a w = .ok () { w with hdr := upd w.hdr c { w.hdr c with alloc := a } } := rfl
   rw [bind_run, hsa]
@@ -53,6 +53,8 @@ theorem ctorFill_sat (cfg : Cfg) (c a : Nat) (checked : Bool) (srcs : List (Src 
   generalize hw1 : ({ w with hdr := upd w.hdr c { w.hdr c with alloc := a } } : World α) = w1
   have hmem1 : w1.mem = w.mem := by subst hw1; rfl
   have hhc1 : w1.hdr c = { w.hdr c with alloc := a } := by subst hw1; simp
+  have hho1 : ∀ d, d ≠ c → w1.hdr d = w.hdr d := by
+    intro d hd; subst hw1; show (upd w.hdr c _) d = _; rw [upd_other _ _ _ _ hd]
   have hq1 : w1.owner = w.owner ∧ w1.live = w.live ∧ w1.next = w.next ∧ w1.ntmp = w.ntmp ∧ w1.ub = w.ub := by subst hw1; exact ⟨rfl, rfl, rfl, rfl, rfl⟩
   obtain ⟨ho1, hlv1, hn1, ht1, hub1⟩ := hq1
   have hl1 : Ledger w1 := by
@@ -100,7 +102,9 @@ theorem ctorFill_sat (cfg : Cfg) (c a : Nat) (checked : Bool) (srcs : List (Src 
       obtain ⟨hq, hlen⟩ := hth
       refine ⟨⟨by rw [hq.2.hdr, hhc1]; exact hu.inl_lt, by rw [hq.2.hdr, hhc1, hq.1, hmem1]; exact hu.len,
                fun i hi => by rw [hq.2.hdr, hhc1] at hi ⊢; unfold IsRaw; rw [hq.1, hmem1]; exact hu.raws i hi⟩,
-              hl1.of_ctl hq.2, by rw [hq.2.live, hlv1], hlen⟩
+              hl1.of_ctl hq.2, by rw [hq.2.live, hlv1], hlen,
+              ⟨fun d hd => by rw [hq.2.hdr]; exact hho1 d hd, by rw [hq.2.hdr, hhc1], by rw [hq.2.hdr, hhc1],
+               fun b _ _ => by rw [hq.1, hmem1], fun b _ => by rw [hq.2.owner, ho1], by rw [hq.2.ub, hub1], by rw [hq.2.ntmp, ht1]⟩⟩
     obtain ⟨hkm, hnb, hm2, ho2, hlv2, hn2, hh2, ht2, hub2⟩ := h2
     rw [hn1] at hnb hm2 ho2 hlv2 hn2
     subst hnb
@@ -146,7 +150,7 @@ theorem ctorFill_sat (cfg : Cfg) (c a : Nat) (checked : Bool) (srcs : List (Src 
     refine sat_bind (sat_tryCatch (Q := fun _ w5 => Ctl w4 w5 ∧
         (∀ k (h : k < srcs.length), (w5.mem w.next)[k]? = some (.obj (srcVal w srcs[k]))) ∧
         (∀ (b i : Nat), b ≠ w.next → (w5.mem b)[i]? = (w4.mem b)[i]?))
-        (E := fun e w' => Unborn w' c ∧ Ledger w' ∧ w'.live = w.live ∧ (e = .length → cfg.maxSize < srcs.length ∧ checked = true))
+        (E := fun e w' => Unborn w' c ∧ Ledger w' ∧ w'.live = w.live ∧ (e = .length → cfg.maxSize < srcs.length ∧ checked = true) ∧ CFrame w w' c)
         (Res.sat_mono hfill ?_ (fun _ _ h => h)) ?_) ?_ (fun _ _ h => h)
     · intro _ w5 ⟨hc5, hv5, hrest5⟩
       refine ⟨hc5, fun k hk' => ?_, fun b i hb => hrest5 b i (by intro ⟨h, _, _⟩; exact hb h)⟩
@@ -179,7 +183,13 @@ theorem ctorFill_sat (cfg : Cfg) (c a : Nat) (checked : Bool) (srcs : List (Src 
                fun i hi => by
                  rw [hh6, hhc4] at hi ⊢
                  show IsRaw w6 (w.hdr c).inl i
-                 unfold IsRaw; rw [hmem6 (w.hdr c).inl (Ne.symm hnI)]; exact hu.raws i hi⟩, ?_, hlv6, fun h => by rw [he] at h; cases h⟩
+                 unfold IsRaw; rw [hmem6 (w.hdr c).inl (Ne.symm hnI)]; exact hu.raws i hi⟩, ?_, hlv6, (fun h => by rw [he] at h; cases h), ?_⟩
+      rotate_left
+      · refine ⟨fun d hd => by rw [hh6]; exact hho4 d hd, by rw [hh6, hhc4], by rw [hh6, hhc4], fun b _ hb => hmem6 b (by omega),
+                fun b hb => ?_, ?_, ?_⟩
+        · subst hw6; show w5.owner b = _; rw [hc5.owner, ho4, ho2, upd_other _ _ _ _ (by omega), ho1]
+        · subst hw6; show w5.ub = _; rw [hc5.ub, hub4, hub2, hub1]
+        · subst hw6; show w5.ntmp = _; rw [hc5.ntmp, ht4, ht2, ht1]
       refine ⟨by subst hw6; show w5.next % 2 = 1 ∧ _; rw [hc5.next, hn4, hn2]; omega,
               by subst hw6; show w5.ntmp % 2 = 0 ∧ _; rw [hc5.ntmp, ht4, ht2, ht1]; exact hl.ntmp_ok, ?_, by rw [hlv6]; exact hl.nodup, ?_, ?_⟩
       · intro b hb; rw [hlv6] at hb
@@ -212,7 +222,15 @@ theorem ctorFill_sat (cfg : Cfg) (c a : Nat) (checked : Bool) (srcs : List (Src 
         rw [hrest5 b i hb, hmem4, hoth2 b hb]
       have hlive6 : w6.live = w.next :: w.live := by rw [hlv6, hc5.live, hlv4, hlv2, hlv1]
       show VecOK cfg w6 c ∧ _
-      refine ⟨?_, ?_, ⟨by rw [hhc6, hml], fun i hi => ?_⟩, by rw [hhc6], by rw [hlive6, if_pos hbig], by rw [hhc6], by rw [hhc6, if_pos hbig], by rw [hhc6, if_pos hbig]⟩
+      have hcf6 : CFrame w w6 c := by
+        refine ⟨fun d hd => ?_, by rw [hhc6], by rw [hhc6], fun b _ hb => hmemo b (by omega), fun b hb => ?_, ?_, ?_⟩
+        · have : w6.hdr d = w5.hdr d := by subst hw6; show (upd w5.hdr c _) d = _; rw [upd_other _ _ _ _ hd]
+          rw [this, hc5.hdr]; exact hho4 d hd
+        · rw [ho6, hc5.owner, ho4, ho2, upd_other _ _ _ _ (by omega), ho1]
+        · have : w6.ub = w5.ub := by subst hw6; rfl
+          rw [this, hc5.ub, hub4, hub2, hub1]
+        · rw [ht6, hc5.ntmp, ht4, ht2, ht1]
+      refine ⟨?_, ?_, ⟨by rw [hhc6, hml], fun i hi => ?_⟩, by rw [hhc6], by rw [hlive6, if_pos hbig], by rw [hhc6], by rw [hhc6, if_pos hbig], by rw [hhc6, if_pos hbig], hcf6⟩
       · exact {
           size_le := by rw [hhc6]; exact Nat.le_refl _
           cap_ge := by rw [hhc6]; show (w.hdr c).N ≤ srcs.length; omega
@@ -291,7 +309,19 @@ theorem ctorFill_sat (cfg : Cfg) (c a : Nat) (checked : Bool) (srcs : List (Src 
                 by rw [hlv4]; exact h3.nodup, fun b h1 h2 h3' => by rw [hmem4]; exact h3.freed b h1 h2 (by rw [← hlv4]; exact h3'),
                 fun b h1 h2 => by rw [hmem4]; exact h3.tmpfresh b (by rw [← ht4]; exact h1) h2⟩
       show VecOK cfg w4 c ∧ _
-      refine ⟨?_, hl4, ⟨by rw [hhc4, hml], fun i hi => ?_⟩, by rw [hhc4], by rw [hlv4, hc3.live, hlv2, if_neg hbig], by rw [hhc4], by rw [hhc4, if_neg hbig], by rw [hhc4, if_neg hbig]⟩
+      have hho2 : ∀ d, d ≠ c → w2.hdr d = w.hdr d := by
+        intro d hd; subst hw2; show (upd w1.hdr c _) d = _; rw [upd_other _ _ _ _ hd]; exact hho1 d hd
+      have hcf4 : CFrame w w4 c := by
+        refine ⟨fun d hd => ?_, by rw [hhc4], by rw [hhc4], fun b hb _ => ?_, fun b _ => by rw [ho4, hc3.owner, ho2], ?_, by rw [ht4, hc3.ntmp, ht2]⟩
+        · have : w4.hdr d = w3.hdr d := by subst hw4; show (upd w3.hdr c _) d = _; rw [upd_other _ _ _ _ hd]
+          rw [this, hc3.hdr]; exact hho2 d hd
+        · rw [hmem4]
+          apply List.ext_getElem?
+          intro i
+          rw [hrest3 b i (by intro ⟨h, _, _⟩; exact hb h), hmem2]
+        · have : w4.ub = w3.ub := by subst hw4; rfl
+          rw [this, hc3.ub, hub2]
+      refine ⟨?_, hl4, ⟨by rw [hhc4, hml], fun i hi => ?_⟩, by rw [hhc4], by rw [hlv4, hc3.live, hlv2, if_neg hbig], by rw [hhc4], by rw [hhc4, if_neg hbig], by rw [hhc4, if_neg hbig], hcf4⟩
       · exact {
           size_le := by rw [hhc4]; show srcs.length ≤ (w.hdr c).N; omega
           cap_ge := by rw [hhc4]; exact Nat.le_refl _
@@ -322,7 +352,15 @@ theorem ctorFill_sat (cfg : Cfg) (c a : Nat) (checked : Bool) (srcs : List (Src 
     · -- an element constructor threw: the constructed ones were destroyed again
       intro e w3 ⟨⟨he, _⟩, hc3, hr3, hrest3⟩
       refine ⟨⟨by rw [hc3.hdr, hhc2]; exact hu.inl_lt, by rw [hc3.hdr, hhc2]; show (w3.mem (w.hdr c).inl).length = (w.hdr c).N; rw [hc3.len, hmem2]; exact hu.len,
-               fun i hi => ?_⟩, hl2.of_ctl hc3, by rw [hc3.live, hlv2], fun h => by rw [he] at h; cases h⟩
+               fun i hi => ?_⟩, hl2.of_ctl hc3, by rw [hc3.live, hlv2], (fun h => by rw [he] at h; cases h), ?_⟩
+      rotate_left
+      · have hho2 : ∀ d, d ≠ c → w2.hdr d = w.hdr d := by
+          intro d hd; subst hw2; show (upd w1.hdr c _) d = _; rw [upd_other _ _ _ _ hd]; exact hho1 d hd
+        refine ⟨fun d hd => by rw [hc3.hdr]; exact hho2 d hd, by rw [hc3.hdr, hhc2], by rw [hc3.hdr, hhc2], fun b hb _ => ?_,
+                fun b _ => by rw [hc3.owner, ho2], by rw [hc3.ub, hub2], by rw [hc3.ntmp, ht2]⟩
+        apply List.ext_getElem?
+        intro i
+        rw [hrest3 b i (by intro ⟨h, _, _⟩; exact hb h), hmem2]
       rw [hc3.hdr, hhc2] at hi ⊢
       show IsRaw w3 (w.hdr c).inl i
       by_cases h : i < srcs.length
@@ -336,13 +374,13 @@ theorem dtor_sat (cfg : Cfg) (c : Nat) (w : World α) (hv : VecOK cfg w c) (hl :
     (dtor cfg c w).sat
       (fun _ w' => Unborn w' c ∧ Ledger w' ∧ w'.ub = w.ub ∧ w'.hdr = w.hdr ∧
           (w'.live = if (w.hdr c).N < (w.hdr c).cap then w.live.erase (w.hdr c).data else w.live) ∧
-          (∀ b, b ≠ (w.hdr c).data → w'.mem b = w.mem b))
+          (∀ b, b ≠ (w.hdr c).data → w'.mem b = w.mem b) ∧ w'.owner = w.owner)
       (fun _ _ => False) := by
   unfold dtor
   refine Res.sat_mono (wipe_sat cfg c w hv) ?_ (fun _ _ h => h)
   intro _ w' hw
   have hinl := hv.inl_lt
-  refine ⟨?_, ?_, hw.ub, hw.hdr, hw.live, hw.other⟩
+  refine ⟨?_, ?_, hw.ub, hw.hdr, hw.live, hw.other, hw.owner⟩
   · -- Unborn
     by_cases hcap : (w.hdr c).N < (w.hdr c).cap
     · have hne := (hv.heap_iff).mp hcap
@@ -409,7 +447,7 @@ theorem ctor_dtor_balanced (cfg : Cfg) (c a : Nat) (checked : Bool) (srcs : List
     (hk : checked = false → srcs.length ≤ cfg.maxSize) (hs : CtorSrcs cfg w c srcs)
     (h1 : ctorFill cfg c a checked srcs w = .ok () w1) (h2 : dtor cfg c w1 = .ok () w2) :
     w2.live = w.live ∧ Unborn w2 c ∧ Ledger w2 := by
-  obtain ⟨hv1, hl1, _, _, hlv1, hN1, hcap1, hdata1⟩ := sat_of_ok (ctorFill_sat cfg c a checked srcs w hu hl hNmax hk hs) h1
+  obtain ⟨hv1, hl1, _, _, hlv1, hN1, hcap1, hdata1, _⟩ := sat_of_ok (ctorFill_sat cfg c a checked srcs w hu hl hNmax hk hs) h1
   obtain ⟨hu2, hl2, _, _, hlv2, _⟩ := sat_of_ok (dtor_sat cfg c w1 hv1 hl1) h2
   refine ⟨?_, hu2, hl2⟩
   rw [hlv2, hlv1, hN1, hcap1, hdata1]
